@@ -400,6 +400,12 @@ def gen_case(rng, stsds) -> dict:
             what.append('two-traf')
         if with_mdat and rng.random() < 0.3:
             parts.append(bw.unknown(rng))
+        if with_mdat and rng.random() < 0.25:
+            # a second fragment in the same file / chunked segment (its own mdat follows its own moof)
+            start2 = sum(len(p) for p in parts)
+            frag2, info2 = gen_moof(rng, iv, True, start2)
+            parts.append(frag2)
+            what.append('second-fragment:' + info2['layout'])
     return {'kind': kind, 'iv': iv, 'data': b''.join(parts), 'what': what}
 
 
